@@ -1,0 +1,18 @@
+//go:build verif && (amd64 || arm64)
+
+package sm4
+
+// Hooks for the verification harness in /verif. Compiled only with -tags verif;
+// the default build is unchanged.
+
+// VerifAsmDefault is the implementation path chosen by CPU detection at start-up.
+var VerifAsmDefault = candoAsm
+
+// VerifSetAsm selects the implementation path used by subsequent NewCipher calls
+// (true: assembly, false: portable Go). It returns the previous setting. Not safe for
+// concurrent use: the harness calls it only while a single task is running.
+func VerifSetAsm(on bool) (prev bool) {
+	prev = candoAsm
+	candoAsm = on && VerifAsmDefault
+	return prev
+}
